@@ -430,6 +430,12 @@ fn sub_bag(a: &[Row], b: &[Row]) -> bool {
 }
 
 fn run_variant(rt: &tokio::runtime::Runtime, c: &Case, v: &Variant) -> Outcome {
+    if std::env::var("VOPS_TEST_HANG").is_ok() {
+        // self-test of the watchdog lane only
+        loop {
+            std::thread::sleep(std::time::Duration::from_secs(1));
+        }
+    }
     let built = match build(c, v) {
         Ok(b) => b,
         Err(e) => return Outcome::Violation(format!("operator rejected a supported sort: {e}"), Value::Null),
@@ -514,9 +520,12 @@ pub fn main() {
     let stats: Mutex<BTreeMap<String, u64>> = Mutex::new(BTreeMap::new());
     let samples: Mutex<Vec<Value>> = Mutex::new(vec![]);
     let distinct: Mutex<std::collections::HashSet<u64>> = Mutex::new(Default::default());
+    let wd = Watchdog::start(threads, outp.clone());
+    let widx = AtomicUsize::new(0);
     std::thread::scope(|s| {
         for _ in 0..threads {
             s.spawn(|| {
+                let w = widx.fetch_add(1, Ordering::Relaxed);
                 let rt = tokio::runtime::Builder::new_current_thread().enable_all().build().unwrap();
                 let mut local: BTreeMap<String, u64> = BTreeMap::new();
                 let mut local_distinct: Vec<u64> = vec![];
@@ -537,7 +546,10 @@ pub fn main() {
                         if v.mem > 0 {
                             *local.entry("tight_memory".into()).or_default() += 1;
                         }
-                        match run_variant(&rt, c, v) {
+                        wd.enter(w, json!({"case": c.raw, "variant": v.to_json()}).to_string());
+                        let o = run_variant(&rt, c, v);
+                        wd.leave(w);
+                        match o {
                             Outcome::Ok { spills } => {
                                 *local.entry("ok".into()).or_default() += 1;
                                 if std::env::var("VOPS_LOG").is_ok() {
